@@ -56,7 +56,7 @@ Checks that were strengthened because a seeded change (or the triage of one) sho
   enumerated faults and C18-3 (capacity doubled before the failed reallocation) was missed; eight container-growth inputs were
   added (70 headers, 40 trailers, 40 pipelined transactions with log messages, 80 parameters/cookies, 40 multipart parts, ...).
 * **Round 4** (19 more changes, 7 missed at first): **C02-4** (query string decoded before it is split) — parameter names and
-  values now contain the characters that are syntax when raw (`& = + % # ?`), which travel percent-encoded; **C06-4**
+  values now contain the characters that are syntax when raw (`& = + %% # ?`), which travel percent-encoded; **C06-4**
   (decompressor callbacks drop the end-of-body marker) — C06 got a slice of complete content-coded bodies in which the marker is
   required (the online monitor has to exempt coded bodies because a truncated stream's last flush replaces the marker);
   **C08-4** (quadratic NUL-skipping search behind the response `Transfer-Encoding`) — 960 generated families: every interpreted
